@@ -6,6 +6,9 @@ import "verifsim/engine"
 // All returns the scenario registry.
 func All() map[string]func() *engine.Scenario {
 	return map[string]func() *engine.Scenario{
+		"C04": C04,
 		"C05": C05,
+		"C10": C10,
+		"C12": C12,
 	}
 }
